@@ -498,7 +498,9 @@ func (c *Check) checkBounds(rule string, fns []string, floor int) {
 }
 
 // mapRangeCounterIdiom recognises
+//
 //	r := make([]T, len(m)); i := 0; for ... range m { r[i] = ...; i++ }
+//
 // where m is not updated inside the loop: i counts the entries already
 // visited, which is below len(m) == len(r) in every iteration.
 func mapRangeCounterIdiom(ia *ssa.IndexAddr) bool {
